@@ -141,8 +141,9 @@ type extracted struct {
 }
 
 func lenientDecode(body []byte, v any) bool {
+	// decode from the slice: the reader based decoder would allocate whatever a length header declares
 	hd := codec.MsgpackHandle{}
-	return codec.NewDecoder(bytes.NewReader(body), &hd).Decode(v) == nil
+	return codec.NewDecoderBytes(body, &hd).Decode(v) == nil
 }
 
 func extractPacket(b []byte, depth int, ex *extracted) {
@@ -206,8 +207,7 @@ func extractStream(b []byte, ex *extracted) {
 	switch plain[0] {
 	case wire.PushPullMsg:
 		hd := codec.MsgpackHandle{}
-		r := bytes.NewReader(plain[1:])
-		dec := codec.NewDecoder(r, &hd)
+		dec := codec.NewDecoderBytes(plain[1:], &hd)
 		var h wire.PushPullHeader
 		if dec.Decode(&h) != nil {
 			return
@@ -220,15 +220,19 @@ func extractStream(b []byte, ex *extracted) {
 			ex.names[n.Name] = true
 			ex.any = true
 		}
-		ex.users = append(ex.users, plain[len(plain)-r.Len():])
+		if used := 1 + dec.NumBytesRead(); used <= len(plain) {
+			ex.users = append(ex.users, plain[used:])
+		}
 	case wire.UserMsg:
 		hd := codec.MsgpackHandle{}
-		r := bytes.NewReader(plain[1:])
+		dec := codec.NewDecoderBytes(plain[1:], &hd)
 		var h wire.UserMsgHeader
-		if codec.NewDecoder(r, &hd).Decode(&h) != nil {
+		if dec.Decode(&h) != nil {
 			return
 		}
-		ex.users = append(ex.users, plain[len(plain)-r.Len():])
+		if used := 1 + dec.NumBytesRead(); used <= len(plain) {
+			ex.users = append(ex.users, plain[used:])
+		}
 		ex.any = true
 	}
 }
